@@ -60,8 +60,10 @@ beh("f14_classes_auth", ["C14"], cfg(), [E("k1")] + [M(c, "auth") for c in ["emp
                                                                               "nontls", "dropAfterHello", "dropMidHello", "silentClose"]] + [D("k1")])
 beh("f14_classes_fetch", ["C14"], cfg(sw=True), [E("k1")] + [M(c, "fetch") for c in ["empty", "short1", "short2", "nob64", "b64rand", "b64trunc", "oversize", "mixed", "dup", "badindex", "hugeEntry",
                                                                                        "dropAfterHello", "dropMidHello"]] + [D("k1"), M("empty", "pref"), M("short1", "pref"), M("b64rand", "pref"), D("k1")])
-beh("f14_relay_and_state_garbage", ["C14"], cfg(), [E("k1"), M("rewrapNoKeyInfo", "fetch"), D("k1"), M("authStateGarbage", "auth"), NN("k2"), AP("k2"), D("k2"), M("authStateGarbage", "auth"), NN("k3"), D("k3"), AP("k3"),
-                                                     M("authStateGarbage", "auth"), D("k3"), M("rewrapNoKeyInfo", "fetch"), D("k1"), D("k2")])
+G4 = [M("authStateGarbage", "auth")] * 4   # several in a row: whatever the listener may keep per processor gets its share
+beh("f14_relay_and_state_garbage", ["C14"], cfg(), [E("k1"), M("rewrapNoKeyInfo", "fetch"), D("k1"), NN("k2"), AP("k2")] + G4 + [D("k2"), NN("k3")] + G4 + [D("k3"), AP("k3")] + G4 +
+                                                    [D("k3"), M("rewrapNoKeyInfo", "fetch"), D("k1"), D("k2")])
+beh("f14_state_garbage_unix", ["C14"], cfg(unix=True), [NN("k1"), AP("k1")] + G4 + [D("k1"), NN("k2"), AP("k2")] + G4 + [D("k2"), NN("k3"), AP("k3")] + G4 + [D("k3")])
 # peers that keep a handshake open for 6.5 s while an honest node dials (open known finding KF-C14-2: Accept handshakes inline)
 beh("kf_c14_stall", ["C14"], cfg(), [E("k1"), D("k1"), M("stallSilent"), D("k1"), M("stallPartial"), D("k1"), M("stallAfterHello", "fetch"), D("k1"), M("stallAfterHello", "auth"), D("k1")])
 # adversarial library clients are remote input as well
